@@ -529,6 +529,19 @@ def InSync (A : AeadFns) (t : Tx) (r : Rx) : Prop :=
      ∀ k ∈ r.cands, k ≠ t.key → ∀ p, A.openF k t.nonce (A.sealF t.key t.nonce p) = none) ∨
   (t.started = true ∧ r.key = some t.key ∧ r.nonce = t.nonce)
 
+/-- `InSync` with the key-commitment clause restricted to ONE plaintext `p` (the metadata the sender
+    seals first): "the other candidate keys do not authenticate THIS ciphertext" — a statement about
+    one forgery attempt per candidate, which a real AEAD can satisfy, where `∀ p` cannot. -/
+def InSyncFor (A : AeadFns) (t : Tx) (r : Rx) (p : Bytes) : Prop :=
+  (t.started = false ∧ r.key = none ∧ t.nonce.length = 24 ∧ t.key ∈ r.cands ∧
+     ∀ k ∈ r.cands, k ≠ t.key → A.openF k t.nonce (A.sealF t.key t.nonce p) = none) ∨
+  (t.started = true ∧ r.key = some t.key ∧ r.nonce = t.nonce)
+
+theorem InSync.toFor {A : AeadFns} {t : Tx} {r : Rx} (h : InSync A t r) (p : Bytes) : InSyncFor A t r p := by
+  rcases h with ⟨a, b, c, d, e⟩ | h
+  · exact Or.inl ⟨a, b, c, d, fun k hk hne => e k hk hne p⟩
+  · exact Or.inr h
+
 theorem selectKey_finds (A : AeadFns) (hA : AeadLaws A) (key nonce p : Bytes) (cands : List Bytes)
     (hin : key ∈ cands) (hw : ∀ k ∈ cands, k ≠ key → A.openF k nonce (A.sealF key nonce p) = none) :
     selectKey A nonce (A.sealF key nonce p) cands = some (key, p) := by
@@ -548,8 +561,8 @@ theorem selectKey_finds (A : AeadFns) (hA : AeadLaws A) (key nonce p : Bytes) (c
       · intro k' hk' hne
         exact hw k' (by simp [hk']) hne
 
-theorem tcp_parse_one (A : AeadFns) (hA : AeadLaws A) (hle : LELaw) (t t' : Tx) (r : Rx)
-    (hsync : InSync A t r) (s : Segment) (hw : s.wf) (lePad : Bool) (bytes rest : Bytes)
+theorem tcp_parse_one_for (A : AeadFns) (hA : AeadLaws A) (hle : LELaw) (t t' : Tx) (r : Rx)
+    (s : Segment) (hsync : InSyncFor A t r s.md.encode) (hw : s.wf) (lePad : Bool) (bytes rest : Bytes)
     (hs : tcpSeal A t s lePad = some (bytes, t')) (hbuf : r.buf = bytes ++ rest) :
     parseOne A r = .ok t.key s.md s.payload bytes.length t'.nonce := by
   simp only [tcpSeal, Option.map_eq_some_iff, Prod.mk.injEq] at hs
@@ -568,7 +581,7 @@ theorem tcp_parse_one (A : AeadFns) (hA : AeadLaws A) (hle : LELaw) (t t' : Tx) 
     have ht : r.buf.take 24 = t.nonce := by rw [e]; exact take_left _ _ _ hnl
     have hmt : (r.buf.drop 24).take 48 = A.sealF t.key t.nonce s.md.encode := by
       rw [e, drop_left _ _ _ hnl]; exact take_left _ _ _ hm
-    have hsel := selectKey_finds A hA t.key t.nonce s.md.encode r.cands hin (fun k hk' hne => hwrong k hk' hne _)
+    have hsel := selectKey_finds A hA t.key t.nonce s.md.encode r.cands hin (fun k hk' hne => hwrong k hk' hne)
     simp only [parseOne, hk, Option.isNone_none, if_true, hl0, if_false, ht, hmt, hsel,
       parseMeta_encode s.md hr hv]
     rcases hbs with ⟨hp, hb0, hz⟩ | ⟨hnz, hbl, hob⟩
@@ -628,6 +641,18 @@ theorem tcp_parse_one (A : AeadFns) (hA : AeadLaws A) (hle : LELaw) (t t' : Tx) 
       simp only [List.length_append, hm, h1, h2, hbl, Parse.ok.injEq, true_and, and_true]
       omega
 
+theorem tcp_parse_one (A : AeadFns) (hA : AeadLaws A) (hle : LELaw) (t t' : Tx) (r : Rx)
+    (hsync : InSync A t r) (s : Segment) (hw : s.wf) (lePad : Bool) (bytes rest : Bytes)
+    (hs : tcpSeal A t s lePad = some (bytes, t')) (hbuf : r.buf = bytes ++ rest) :
+    parseOne A r = .ok t.key s.md s.payload bytes.length t'.nonce :=
+  tcp_parse_one_for A hA hle t t' r s (hsync.toFor _) hw lePad bytes rest hs hbuf
+
+/-- the plaintext of the first encryption of a direction: the encoded metadata of its first segment -/
+def firstMeta (segs : List (Segment × Bool)) : Bytes :=
+  match segs with
+  | [] => []
+  | x :: _ => x.1.md.encode
+
 /-- a whole direction of a connection: segments sealed one after the other -/
 def sealAll (A : AeadFns) : Tx → List (Segment × Bool) → Option Bytes
   | _, [] => some []
@@ -661,8 +686,8 @@ theorem sealAll_length (A : AeadFns) (hA : AeadLaws A) (segs : List (Segment × 
       have := (tcpSeal_post A hA t t' s lp b hseal).2.2
       simp only [List.length_cons, List.length_append]; omega
 
-theorem drain_sealAll (A : AeadFns) (hA : AeadLaws A) (hle : LELaw) (segs : List (Segment × Bool))
-    (hw : ∀ x ∈ segs, x.1.wf) (t : Tx) (r : Rx) (hsync : InSync A t r) (hdead : r.dead = none)
+theorem drain_sealAll_for (A : AeadFns) (hA : AeadLaws A) (hle : LELaw) (segs : List (Segment × Bool))
+    (hw : ∀ x ∈ segs, x.1.wf) (t : Tx) (r : Rx) (hsync : InSyncFor A t r (firstMeta segs)) (hdead : r.dead = none)
     (hs : sealAll A t segs = some r.buf) (fuel : Nat) (hf : segs.length ≤ fuel) :
     (drain A fuel r).out = r.out ++ segs.map (fun x => (x.1.md, x.1.payload)) ∧
     (drain A fuel r).dead = none ∧ (drain A fuel r).buf = [] := by
@@ -688,31 +713,46 @@ theorem drain_sealAll (A : AeadFns) (hA : AeadLaws A) (hle : LELaw) (segs : List
         simp only [Option.map_eq_some_iff] at hs
         obtain ⟨bs, hbs, hb⟩ := hs
         have hpost := tcpSeal_post A hA t t' s lp b hseal
-        have key := tcp_parse_one A hA hle t t' r hsync s (hw (s, lp) (by simp)) lp b bs hseal hb.symm
+        have key := tcp_parse_one_for A hA hle t t' r s hsync (hw (s, lp) (by simp)) lp b bs hseal hb.symm
         have hdrop : r.buf.drop b.length = bs := by rw [← hb]; exact drop_left _ _ _ rfl
         simp only [drain, hdead, Option.isSome_none, Bool.false_eq_true, if_false, key, hdrop]
-        have hsync' : InSync A t' { r with key := some t.key, nonce := t'.nonce, buf := bs, out := r.out ++ [(s.md, s.payload)] } := by
+        have hsync' : InSyncFor A t' { r with key := some t.key, nonce := t'.nonce, buf := bs, out := r.out ++ [(s.md, s.payload)] } (firstMeta ss) := by
           right
           exact ⟨hpost.1, by simp [hpost.2.1], rfl⟩
         have := ih (fun x hx => hw x (by simp [hx])) t' _ hsync' hdead hbs n (by simp at hf; omega)
         simpa [List.append_assoc, hdead] using this
 
+theorem drain_sealAll (A : AeadFns) (hA : AeadLaws A) (hle : LELaw) (segs : List (Segment × Bool))
+    (hw : ∀ x ∈ segs, x.1.wf) (t : Tx) (r : Rx) (hsync : InSync A t r) (hdead : r.dead = none)
+    (hs : sealAll A t segs = some r.buf) (fuel : Nat) (hf : segs.length ≤ fuel) :
+    (drain A fuel r).out = r.out ++ segs.map (fun x => (x.1.md, x.1.payload)) ∧
+    (drain A fuel r).dead = none ∧ (drain A fuel r).buf = [] :=
+  drain_sealAll_for A hA hle segs hw t r (hsync.toFor _) hdead hs fuel hf
+
 /-- **Stream round trip**: everything one direction of a connection carries, fed to a fresh
-    receiver in one piece, comes out as exactly the segments that were sealed. -/
-theorem tcp_stream_roundtrip (A : AeadFns) (hA : AeadLaws A) (hle : LELaw) (segs : List (Segment × Bool))
-    (hw : ∀ x ∈ segs, x.1.wf) (t : Tx) (cands : List Bytes) (hsync : InSync A t (Rx.new cands))
+    receiver in one piece, comes out as exactly the segments that were sealed.  The key-commitment
+    clause is about the ONE ciphertext the sender produces first. -/
+theorem tcp_stream_roundtrip_for (A : AeadFns) (hA : AeadLaws A) (hle : LELaw) (segs : List (Segment × Bool))
+    (hw : ∀ x ∈ segs, x.1.wf) (t : Tx) (cands : List Bytes) (hsync : InSyncFor A t (Rx.new cands) (firstMeta segs))
     (bytes : Bytes) (hs : sealAll A t segs = some bytes) :
     (feed A (Rx.new cands) bytes).out = segs.map (fun x => (x.1.md, x.1.payload)) ∧
     (feed A (Rx.new cands) bytes).dead = none ∧ (feed A (Rx.new cands) bytes).buf = [] := by
   have hlen := sealAll_length A hA segs t bytes hs
-  have hsync' : InSync A t { Rx.new cands with buf := (Rx.new cands).buf ++ bytes } := by
+  have hsync' : InSyncFor A t { Rx.new cands with buf := (Rx.new cands).buf ++ bytes } (firstMeta segs) := by
     rcases hsync with h | h
     · left; exact h
     · right; exact h
-  have := drain_sealAll A hA hle segs hw t { Rx.new cands with buf := (Rx.new cands).buf ++ bytes } hsync' rfl
+  have := drain_sealAll_for A hA hle segs hw t { Rx.new cands with buf := (Rx.new cands).buf ++ bytes } hsync' rfl
     (by simpa [Rx.new] using hs) (((Rx.new cands).buf ++ bytes).length / 48 + 1)
     (by simp only [Rx.new, List.nil_append]; omega)
   simpa [feed, Rx.new] using this
+
+theorem tcp_stream_roundtrip (A : AeadFns) (hA : AeadLaws A) (hle : LELaw) (segs : List (Segment × Bool))
+    (hw : ∀ x ∈ segs, x.1.wf) (t : Tx) (cands : List Bytes) (hsync : InSync A t (Rx.new cands))
+    (bytes : Bytes) (hs : sealAll A t segs = some bytes) :
+    (feed A (Rx.new cands) bytes).out = segs.map (fun x => (x.1.md, x.1.payload)) ∧
+    (feed A (Rx.new cands) bytes).dead = none ∧ (feed A (Rx.new cands) bytes).buf = [] :=
+  tcp_stream_roundtrip_for A hA hle segs hw t cands (hsync.toFor _) bytes hs
 
 /-! ## UDP associate encapsulation -/
 
